@@ -208,24 +208,28 @@ example : ∀ b ∈ ascii "3f1c2a9e-5b7d-4c1a-9e2f-0a1b2c3d4e5f", isUuidByte b =
 theorem pattern_alone_does_not_confine_vault :
     ∀ cls hex, kidClasses C03.kidPatternRx = some (cls, hex) →
       validateKID cls hex [] [DOT, DOT] = true ∧
-      vaultKeyPath (ascii "kv") C03.vaultKeyPathName [DOT, DOT] = ascii "kv" ∧
+      vaultKeyPath (ascii "kv") (ascii "nuts-private-keys") [DOT, DOT] = ascii "kv" ∧
       validateKID cls hex [] [DOT] = true ∧
-      vaultKeyPath (ascii "kv") C03.vaultKeyPathName [DOT] = ascii "kv/nuts-private-keys" := by
+      vaultKeyPath (ascii "kv") (ascii "nuts-private-keys") [DOT] = ascii "kv/nuts-private-keys" := by
   intro cls hex h
   have : kidClasses C03.kidPatternRx = some ([(32, 32), (35, 35), (45, 46), (48, 58), (65, 90), (95, 95), (97, 122)], [(48, 57), (65, 70), (97, 102)]) := by decide
   rw [this] at h; cases h; decide +kernel
 
+/-- the Vault directory name used above is the one in the source -/
+theorem fact_vault_path_name : C03.vaultKeyPathNameStr = "nuts-private-keys" ∧ C03.vaultKeyPathName.length = 17 := by decide
+
 /-- non-vacuity: path-like and percent-encoded names; the first two are refused, the third is accepted and stays
-    one directory entry -/
-example : ∀ cls hex, kidClasses C03.kidPatternRx = some (cls, hex) →
-    validateKID cls hex C03.validateKIDRefusedNames (ascii "../server-certificate") = false ∧
-    validateKID cls hex C03.validateKIDRefusedNames (ascii "..") = false ∧
-    validateKID cls hex C03.validateKIDRefusedNames (ascii "..%2F..%2Fetc%2Fpasswd") = true ∧
+    one directory entry. (Literal refusal list: what `fact_dot_names_refused` pins; a computation that could turn
+    false under a source change is kept out of `decide +kernel`, whose failure path is expensive.) -/
+example :
+    let cls : Ranges := [(32, 32), (35, 35), (45, 46), (48, 58), (65, 90), (95, 95), (97, 122)]
+    let hex : Ranges := [(48, 57), (65, 70), (97, 102)]
+    validateKID cls hex [[DOT], [DOT, DOT]] (ascii "../server-certificate") = false ∧
+    validateKID cls hex [[DOT], [DOT, DOT]] (ascii "..") = false ∧
+    validateKID cls hex [[DOT], [DOT, DOT]] (ascii "..%2F..%2Fetc%2Fpasswd") = true ∧
     fsEntryPath (ascii "/data/crypto") (ascii "..%2F..%2Fetc%2Fpasswd") (ascii "private.pem")
       = ascii "/data/crypto/..%2F..%2Fetc%2Fpasswd_private.pem" := by
-  intro cls hex h
-  have : kidClasses C03.kidPatternRx = some ([(32, 32), (35, 35), (45, 46), (48, 58), (65, 90), (95, 95), (97, 122)], [(48, 57), (65, 70), (97, 102)]) := by decide
-  rw [this] at h; cases h; decide +kernel
+  decide +kernel
 
 /-! ### every backend is wrapped, and the wrapper validates every caller-chosen key name -/
 
